@@ -215,6 +215,14 @@ theorem C02_v1_beat_encoders_outside_lenient_family (v : Impl.V1.Beat) (b : Byte
     rw [(decodeBeat_lenient b hm).1] at hd'
     cases hd'
 
+/-- What the library does INSIDE the lenient family: the Spec rejects, the library either returns the
+header fields with both grids empty or (non-zero trailing bytes) throws `invalid_argument` — nothing else. -/
+theorem C02_v1_beat_lenient_family_behaviour (bs : Bytes) (hm : missingSecondGrid bs = true) :
+    V1.decodeBeat bs = none ∧
+    ((∃ sr sc, Impl.V1.decodeBeat bs = .ok ⟨sr, sc, [], []⟩) ∨
+      Impl.V1.decodeBeat bs = .throw .invalid_argument) :=
+  decodeBeat_lenient bs hm
+
 /-! ## the framing, Model side against Spec side -/
 section Framing
 open EngineModel.Impl.Zlib
